@@ -188,6 +188,15 @@ func IntProps(propContainer map[string]object.PanObject) map[string]object.PanOb
 			) object.PanObject {
 				self, other, err := checkIntInfixArgs(args, "**", object.NewPanInt(1))
 				if err == nil {
+					// exact integer power (math.Pow loses precision beyond 2^53)
+					if other.Value >= 0 && other.Value <= 64 {
+						exact := new(big.Int).Exp(big.NewInt(self.Value), big.NewInt(other.Value), nil)
+						if exact.IsInt64() {
+							// NOTE: Int's descendants also call this
+							return object.NewInheritedInt(args[0].Proto(), exact.Int64())
+						}
+					}
+
 					res := math.Pow(float64(self.Value), float64(other.Value))
 					// check if f is integer
 					if math.Floor(res) == res {
